@@ -7,6 +7,11 @@ import M3d.Lemmas.ParamHist
 import M3d.Lemmas.ParamExt
 import M3d.Lemmas.ParamOutside
 import M3d.Lemmas.ParamQT
+import M3d.Lemmas.ParamSparse
+import M3d.Lemmas.ParamCG
+import Mathlib.Algebra.Module.LinearMap.Basic
+import Mathlib.Tactic.NormNum
+import Mathlib.Algebra.Order.Field.Rat
 import Mathlib.Analysis.Real.Sqrt
 /-!
 # C18 — Surface parameterisations are valid, disjoint and invertible
@@ -18,7 +23,7 @@ split index), numeric ones over every linear ordered field (so for ℚ, which th
 and ℝ).
 -/
 namespace M3d.C18
-open M3d.Surface M3d.Param
+open M3d.Surface M3d.Param M3d.Sparse M3d.CG
 
 variable {K : Type} [Field K] [LinearOrder K] [IsStrictOrderedRing K]
 
@@ -142,6 +147,188 @@ theorem floater_row_convex_comb (nbs : List (Nb K)) (i : Nat) (x y : Nat → K)
 
 example : rowLhs (floaterRow [Nb.fixed (⟨1, 0⟩ : V2 Rat) (1/2), Nb.fixed ⟨0, 1⟩ (1/2)]) 0 (fun _ => 1/2) =
     (floaterRow [Nb.fixed (⟨1, 0⟩ : V2 Rat) (1/2), Nb.fixed ⟨0, 1⟩ (1/2)]).bias.x := by decide +kernel
+
+/-! ### The sparse matrix behind the system (`numerical.SparseMatrix`) -/
+
+omit [LinearOrder K] [IsStrictOrderedRing K] in
+/-- **Every row of a `SparseMatrix` owns its entries, however many there are.**  After ANY sequence `ops` of
+`Set(row, col, value)` calls on `NewSparseMatrix(n)` — rows filled one after the other as `floater97` does, or
+interleaved, rows of any length — row `i` enumerates (`Iterate`) exactly the calls with `row = i`, in the order they
+were made, and component `i` of `Apply(x)` is `Σ x[col] · value` over exactly those calls: no entry spills into, or is
+overwritten by, another row. -/
+theorem sparse_rows_independent (n : Nat) (ops : List (Nat × Nat × K)) (x : List K) (i : Nat) (hi : i < n)
+    (hx : i < x.length) :
+    (SM.build n ops).entries i = ((ops.filter fun o => o.1 == i).map fun o => (o.2.1, o.2.2)) ∧
+    ((SM.build n ops).apply x).getD i 0 = ((ops.filter fun o => o.1 == i).map fun o => x.getD o.2.1 0 * o.2.2).sum :=
+  ⟨SM.entries_build n ops i hi, SM.apply_build n ops x i hi hx⟩
+
+/-- Non-vacuity: row 0 receives 20 entries (all ones), then row 1 receives its own two: row 0 still sums 20 values. -/
+example : ((SM.build 2 (((List.range 20).map fun j => (0, j, (1 : Rat))) ++ [(1, 1, -1), (1, 0, 1 / 2)])).apply
+    ((List.range 20).map fun j => (j : Rat))) = [190, -1] ++ List.replicate 18 0 := by decide +kernel
+
+omit [LinearOrder K] [IsStrictOrderedRing K] in
+/-- **`Apply` computes `A·x`.**  For a matrix in the representation invariant whose row `i` has all its columns
+inside the vector: component `i` of `Apply(x)` is `Σⱼ A[i][j]·x[j]` over ALL columns `j`, where `A[i][j]` (`SM.entry`) is
+the value `Set` at `(i, j)` (`0` if none; the sum if the position was set more than once, which the documentation
+of `Set` excludes). -/
+theorem sparse_apply_is_matrix_product (s : SM K) (x : List K) (i : Nat) (hi : i < x.length)
+    (hc : ∀ cv ∈ s.entries i, cv.1 < x.length) :
+    (s.apply x).getD i 0 = ((List.range x.length).map fun j => s.entry i j * x.getD j 0).sum :=
+  SM.apply_eq_matrix_product s x i hi hc
+
+omit [LinearOrder K] [IsStrictOrderedRing K] in
+/-- **`Apply` is a linear operator**: `A(x + y) = A x + A y` for vectors of equal length (`Vec.Add`) and
+`A(x·c) = (A x)·c` (`Vec.Scale`) — the hypothesis under which `bicgstab_residual_invariant` speaks about the operator
+`matrix.Apply` that `floater97` hands to the solver. -/
+theorem sparse_apply_linear (s : SM K) (x y : List K) (h : x.length = y.length) (c : K) :
+    s.apply (List.zipWith (· + ·) x y) = List.zipWith (· + ·) (s.apply x) (s.apply y) ∧
+    s.apply (x.map (· * c)) = (s.apply x).map (· * c) :=
+  SM.apply_linear s x y h c
+
+omit [LinearOrder K] [IsStrictOrderedRing K] in
+/-- **`Transpose()` is the transposed matrix and `Permute(perm)` the matrix with rows and columns permuted.**
+`Aᵀ[j][i] = A[i][j]`, and row `j` of the transpose lists the entries of column `j` by ascending row; for `perm` a
+permutation of `0..n−1` ("the result of applying the permutation to the list `[0...n-1]`") and a row whose columns
+are `< n`: `Permute(perm)[i][k] = A[perm[i]][perm[k]]`. -/
+theorem sparse_transpose_permute (s : SM K) :
+    (∀ i j, i < s.size → j < s.size → s.transpose.entry j i = s.entry i j) ∧
+    (∀ j, j < s.size → s.transpose.entries j =
+      (List.range s.size).flatMap fun i => ((s.entries i).filter fun jx => jx.1 == j).map fun jx => (i, jx.2)) ∧
+    (∀ (perm : List Nat) (i k pi pk : Nat), perm.Perm (List.range perm.length) → perm[i]? = some pi → perm[k]? = some pk →
+      (∀ cv ∈ s.entries pi, cv.1 < perm.length) → (s.permute perm).entry i k = s.entry pi pk) :=
+  ⟨fun i j hi hj => SM.entry_transpose s i j hi hj, fun j hj => SM.entries_transpose s j hj,
+   fun perm i k pi pk hp hi hk hc => SM.entry_permute s perm hp i k pi pk hi hk hc⟩
+
+/-- Non-vacuity: a 3×3 matrix with 5 entries; its transpose read row by row, and a cyclic permutation. -/
+example : let m : SM Rat := SM.build 3 [(0, 2, 5), (0, 0, 1), (1, 1, 2), (2, 0, 3), (2, 1, 4)]
+    m.transpose.entries 0 = [(0, 1), (2, 3)] ∧ m.transpose.entry 2 0 = 5 ∧ m.entry 0 2 = 5 ∧
+    (m.permute [1, 2, 0]).entries 1 = [(2, 3), (0, 4)] ∧ m.apply [1, 10, 100] = [501, 20, 43] := by decide +kernel
+
+omit [LinearOrder K] [IsStrictOrderedRing K] in
+/-- **The operator `floater97` hands to the solver IS the system of the mesh, for every valence.**  `floaterSystem`
+is the system of the mesh `ts` with boundary positions `bpos` and weights `w` (one row per vertex without a
+boundary position: what the `system` kind compares, exactly, with the real assembled operator); `floaterMatrix`
+is the `SparseMatrix` the `Set` calls of `floater97` build for it.  Component `k` of `matrix.Apply` at the
+positions `x` of the unknowns is the left-hand side `−x(c) + Σ wⱼ x(j)` (over all interior neighbours `j` of the
+`k`-th unknown `c`) of row `k` — the closure hypothesis of `floaterMatrix_apply` holds for every mesh
+(`floaterSystem_closed`). -/
+theorem floater_operator_is_the_system (ts : List Tri) (bpos : Nat → Option (V2 K)) (w : Nat → Nat → Option K)
+    (sys : List (Nat × Row K)) (h : floaterSystem ts bpos w = some sys) (x : Nat → K) (k c : Nat) (r : Row K)
+    (hk : sys[k]? = some (c, r)) :
+    ((floaterMatrix sys).apply ((sys.map Prod.fst).map x)).getD k 0 = rowLhs r c x :=
+  floaterMatrix_apply sys (floaterSystem_closed ts bpos w sys h).2.2 x k c r hk
+
+/-- Non-vacuity: the fan of four triangles around vertex 2 over the square (the fixed case of the harness). -/
+example : (floaterSystem [(2, 0, 1), (2, 1, 4), (2, 3, 0), (2, 4, 3)]
+    (fun v => if v = 2 then none else some (⟨(v : Rat), 1⟩ : V2 Rat)) (fun _ _ => some (1 / 4 : Rat))).isSome = true := by
+  decide +kernel
+
+/-- **A solution of the system `floater97` hands to the solver places every interior vertex at the weighted mean of
+its neighbours — for every valence.**  `nbss` lists the interior vertices in the order of `nonBoundary`, each with
+its neighbours (interior = variable, or boundary = fixed position) and weights; every interior neighbour is itself
+an unknown; the weights of a vertex sum to 1.  `floaterMatrix` is the `SparseMatrix` built by the `Set` calls of
+`floater97` (`Set(k, k, −1)`, then `Set(k, index(neighbour), weight)` per interior neighbour).  If `x`, `y` solve
+`matrix.Apply(x) = bias` for both coordinates — what `SolveLinearSystem(matrix.Apply, bias1d, …)` is asked to
+return — then every interior vertex lies at the weighted mean of ALL its neighbours.  (Through
+`floaterMatrix_apply`: component `k` of `Apply` is the row `floaterRow` of the `k`-th vertex whatever the number of
+its neighbours, then `floater_row_convex_comb`.) -/
+theorem floater_solution_is_weighted_mean (nbss : List (Nat × List (Nb K))) (x y : Nat → K)
+    (hcl : ∀ cn ∈ nbss, ∀ j w, Nb.var j w ∈ cn.2 → j ∈ nbss.map Prod.fst)
+    (hsum : ∀ cn ∈ nbss, totalWeight cn.2 = 1)
+    (hx : (floaterMatrix (nbss.map fun cn => (cn.1, floaterRow cn.2))).apply ((nbss.map Prod.fst).map x) =
+      nbss.map fun cn => (floaterRow cn.2).bias.x)
+    (hy : (floaterMatrix (nbss.map fun cn => (cn.1, floaterRow cn.2))).apply ((nbss.map Prod.fst).map y) =
+      nbss.map fun cn => (floaterRow cn.2).bias.y) :
+    ∀ cn ∈ nbss, x cn.1 = weightedMean (nbPairsX cn.2 x) ∧ y cn.1 = weightedMean (nbPairsY cn.2 y) := by
+  intro cn hcn
+  obtain ⟨k, hk⟩ := List.getElem?_of_mem hcn
+  have hfst : (nbss.map fun cn => (cn.1, floaterRow cn.2)).map Prod.fst = nbss.map Prod.fst := by
+    rw [List.map_map]; rfl
+  have hsk : (nbss.map fun cn => (cn.1, floaterRow cn.2))[k]? = some (cn.1, floaterRow cn.2) := by
+    rw [List.getElem?_map, hk]; rfl
+  have hcl' : ∀ cr ∈ (nbss.map fun cn => (cn.1, floaterRow cn.2)), ∀ jw ∈ cr.2.offs,
+      jw.1 ∈ (nbss.map fun cn => (cn.1, floaterRow cn.2)).map Prod.fst := by
+    intro cr hcr jw hjw
+    obtain ⟨cn', hcn', rfl⟩ := List.mem_map.1 hcr
+    rw [hfst]
+    simp only [floaterRow_offs, List.mem_filterMap] at hjw
+    obtain ⟨nb, hnb, he⟩ := hjw
+    cases nb with
+    | var j w =>
+      simp only [Option.some.injEq] at he
+      subst he
+      exact hcl cn' hcn' j w hnb
+    | fixed p w => simp at he
+  have ax := floaterMatrix_apply _ hcl' x k cn.1 (floaterRow cn.2) hsk
+  have ay := floaterMatrix_apply _ hcl' y k cn.1 (floaterRow cn.2) hsk
+  rw [hfst] at ax ay
+  rw [hx] at ax
+  rw [hy] at ay
+  have bx : (nbss.map fun cn => (floaterRow cn.2).bias.x).getD k 0 = (floaterRow cn.2).bias.x := by
+    rw [List.getD_eq_getElem?_getD, List.getElem?_map, hk]; rfl
+  have by' : (nbss.map fun cn => (floaterRow cn.2).bias.y).getD k 0 = (floaterRow cn.2).bias.y := by
+    rw [List.getD_eq_getElem?_getD, List.getElem?_map, hk]; rfl
+  rw [bx] at ax
+  rw [by'] at ay
+  have h := floater_row_convex_comb cn.2 cn.1 x y ax.symm ay.symm (hsum cn hcn)
+  exact ⟨h.2.2.2.2.1, h.2.2.2.2.2⟩
+
+/-- Non-vacuity: two interior vertices 0 and 1 that are neighbours of each other, each with one boundary neighbour
+(at `(0,0)` resp. `(3,3)`), all weights `1/2`: `x = y = (1, 2)` solves the assembled system. -/
+example : (floaterMatrix ([(0, [Nb.var 1 (1/2 : Rat), Nb.fixed ⟨0, 0⟩ (1/2)]), (1, [Nb.var 0 (1/2), Nb.fixed ⟨3, 3⟩ (1/2)])].map
+      fun cn => (cn.1, floaterRow cn.2))).apply ([0, 1].map fun v => if v = 0 then (1 : Rat) else 2) =
+    [(0, [Nb.var 1 (1/2 : Rat), Nb.fixed ⟨0, 0⟩ (1/2)]), (1, [Nb.var 0 (1/2), Nb.fixed ⟨3, 3⟩ (1/2)])].map
+      fun cn => (floaterRow cn.2).bias.x := by decide +kernel
+
+
+/-! ### The iterative solver (`numerical.BiCGSTAB`, `BiCGSTABSolver.SolveLinearSystem`) -/
+
+omit [LinearOrder K] [IsStrictOrderedRing K] in
+/-- **BiCGSTAB tracks the true residual, and its `terminate` flag means "exact".**  `A` is a linear operator on a
+vector space over `K` (for `floater97`: `matrix.Apply`, linear by `sparse_apply_is_matrix_product`), `b` the
+right-hand side, `guess` the optional initial guess; the inner product `dot` and the error sums are arbitrary, the
+test `v.Norm() == 0` (`nz`) only succeeds on the zero vector, and `A` is non-singular.  After ANY number `k` of calls of
+`Iter()`: as long as the flag is not set, the residual vector `r` the method works with is the true residual
+`b − A·x` of the current solution `x`; once the flag is set — the exit `r.Norm() == 0` or the exit `t.Norm() == 0`
+after the first half-step, which stores `h` — the current solution is exact: `A·x = b`. -/
+theorem bicgstab_residual_invariant {V : Type} [AddCommGroup V] [Module K V] (A : V →ₗ[K] V) (b : V) (guess : Option V)
+    (dot : V → V → K) (nz : V → Bool) (errs : V → K × K) (len : V → K) (isEmpty : V → Bool)
+    (hnz : ∀ v, nz v = true → v = 0) (hinj : ∀ v, A v = 0 → v = 0) (k : Nat) :
+    let st := iterN (modOps dot nz errs len isEmpty) A k (init (modOps dot nz errs len isEmpty) A b guess)
+    (st.terminate = false → st.r = b - A st.x) ∧ (st.terminate = true → A st.x = b) :=
+  iterN_inv dot nz errs len isEmpty A b hnz hinj k _ (init_inv dot nz errs len isEmpty A b guess)
+
+omit [LinearOrder K] [IsStrictOrderedRing K] in
+/-- **What `SolveLinearSystem` returns.**  For a non-empty system and `MaxIters > 0`: the returned vector is the
+solution after `j + 1 ≤ MaxIters` calls of `Iter()`; if the loop left before the budget was used up, the stopping
+test (`sqErr < MSETolerance·n` or `absErr < MAETolerance·n`, evaluated on the TRUE residual `A·sol − b`) had passed
+on exactly that vector; and if BiCGSTAB had set its `terminate` flag by then, the vector is an exact solution. -/
+theorem bicgstab_solver_returns_an_iterate {V : Type} [AddCommGroup V] [Module K V] (A : V →ₗ[K] V) (b : V)
+    (guess : Option V) (dot : V → V → K) (nz : V → Bool) (errs : V → K × K) (len : V → K) (isEmpty : V → Bool)
+    (isNaN : K → Bool) (lt : K → K → Bool) (maxIters : Nat) (mseTol maeTol : K) (tolOn : Bool) (sol : V)
+    (hnz : ∀ v, nz v = true → v = 0) (hinj : ∀ v, A v = 0 → v = 0) (hne : isEmpty b = false) (hmax : 0 < maxIters)
+    (h : solve (modOps dot nz errs len isEmpty) isNaN lt A b guess maxIters mseTol maeTol tolOn = some sol) :
+    ∃ j, j < maxIters ∧
+      sol = (iterN (modOps dot nz errs len isEmpty) A (j + 1) (init (modOps dot nz errs len isEmpty) A b guess)).x ∧
+      (j + 1 < maxIters → tolOn = true ∧
+        stopTest (modOps dot nz errs len isEmpty) isNaN lt A b mseTol maeTol sol = some true) ∧
+      ((iterN (modOps dot nz errs len isEmpty) A (j + 1) (init (modOps dot nz errs len isEmpty) A b guess)).terminate = true →
+        A sol = b) := by
+  unfold solve at h
+  rw [show (modOps dot nz errs len isEmpty).isEmpty b = false from hne] at h
+  simp only [Bool.false_eq_true, if_false] at h
+  rcases solveLoop_spec _ isNaN lt A b mseTol maeTol tolOn maxIters _ _ sol h with ⟨h0, _⟩ | ⟨j, hj, hs, ht⟩
+  · omega
+  · refine ⟨j, hj, hs, ht, fun hterm => ?_⟩
+    rw [hs]
+    exact (bicgstab_residual_invariant A b guess dot nz errs len isEmpty hnz hinj (j + 1)).2 hterm
+
+/-- Non-vacuity: the 1×1 system `2·x = 4` over ℚ: one call of `Iter()` leaves through the `t.Norm() == 0` exit with
+the exact solution `h = 2`. -/
+example : let o : VOps ℚ ℚ := modOps (fun u v => u * v) (fun v => v == 0) (fun v => (v * v, |v|)) (fun _ => 1) (fun _ => false)
+    let A : ℚ →ₗ[ℚ] ℚ := (2 : ℚ) • LinearMap.id
+    (iterN o A 1 (init o A 4 none)).x = 2 ∧ (iterN o A 1 (init o A 4 none)).terminate = true := by
+  norm_num [iterN, iter, init, modOps, exitT, fullStep, tOf, sOf, hOf, vOf, pOf, alphaOf, rhoOf, wOf]
 
 /-- **A solve never touches the caller's boundary map, however many solves share it.**  `h` is the
 heap of `CoordMap`s, `bref` the boundary pointer every solve of the history receives, `sols` one
